@@ -12,7 +12,7 @@ import datetime
 import hashlib
 import itertools
 
-from mc import bmff, core, crawl, mpd, world as W
+from mc import history, bmff, core, crawl, mpd, world as W
 from mc.explorer import deviation_vectors
 from props import c01
 
@@ -106,17 +106,6 @@ def plan(tier):
                             opts['depth'] = '30'
                             opts['start'] = 'epoch' if (len(v) % 2) else '2024-03-01T00:00:00Z'
                         items.append({'stream': stream, 'mode': mode, 'opts': opts})
-    # histories: every ordered pair of option vectors on the small encrypted stream - the answer to a request does not
-    # depend on what the process served before
-    hv = [v for v in vecs if len(v) <= 1]
-    if tier == 'quick':
-        hv = [v for v in hv if v.get('drm') in (None, 'all', 'playready', 'clearkey-moov')]
-    for a in hv:
-        for b in hv:
-            if a is b:
-                continue
-            items.append({'stream': 'synenc', 'mode': 'vod', 'opts': {k: x for k, x in b.items() if x is not None},
-                          'before': [{k: x for k, x in a.items() if x is not None}]})
     return items
 
 
@@ -245,9 +234,32 @@ def execute(item):
     return acc
 
 
+def history_alphabet(tier):
+    """Sessions for the differential history oracle (mc/history.py): every option vector of deviation level <= 1 on the
+    small encrypted stream, static and live."""
+    hv = [v for v in vectors(tier) if len(v) <= 1]
+    if tier == 'quick':
+        hv = [v for v in hv if v.get('drm') in (None, 'all', 'playready', 'clearkey-moov')]
+    out = []
+    for v in hv:
+        opts = {k: x for k, x in v.items() if x is not None}
+        label = ','.join(f'{k}={x}' for k, x in sorted(opts.items())) or 'default'
+        out.append((f'vod|{label}', crawl.manifest_url('vod', 'synenc', 'hand_made', opts), crawl.iso(NOW)))
+    for v in hv[:4] if tier == 'quick' else hv:
+        opts = {k: x for k, x in v.items() if x is not None}
+        label = ','.join(f'{k}={x}' for k, x in sorted(opts.items())) or 'default'
+        opts = dict(opts, depth='30', start='2024-03-01T00:00:00Z')
+        out.append((f'live|{label}', crawl.manifest_url('live', 'synenc', 'hand_made', opts), crawl.iso(NOW)))
+    return out
+
+
 def run(ctx):
+    # histories first: these workers only fork, so that every pair starts from a process that has served nothing
+    alpha = history_alphabet(ctx.tier)
+    ctx.merge_all(ctx.pmap(history.pair_item, [('C03', a, alpha) for a in range(len(alpha))]))
     items = plan(ctx.tier)
     ctx.merge_all(ctx.pmap(execute, items, chunksize=2))
+    ctx.extra.update(history_alphabet=[a[0] for a in alpha], history_pairs=len(alpha) * (len(alpha) - 1))
     ctx.extra.update(work_items=len(items), vectors=len(vectors(ctx.tier)), alphabet=ALPHABET,
                      event_schedules=EVENT_SCHEDULES, streams=list(STREAMS),
                      levels_completed=('deviation levels 0-1 everywhere, level 2 inside {drm,piff,version,events} '
@@ -256,6 +268,10 @@ def run(ctx):
 
 
 def replay(record):
+    if record.get('kind') == 'history-pair':
+        alpha = [tuple(record['a']), tuple(record['b'])]
+        acc = history.run_forked(history.pair_item, ('C03', 0, alpha))
+        return [(s, v[0]['what']) for s, v in acc.viol.items()]
     item = {'stream': record['stream'], 'mode': record['mode'], 'opts': record['opts'], 'before': record.get('before')}
     acc = execute(item)
     return [(s, v[0]['what']) for s, v in acc.viol.items()]
